@@ -171,6 +171,9 @@ func Render(es []Entry) string {
 			fm := f.M()
 			if !ok {
 				s = -1
+				if e.Kind == "KReply" || e.Kind == "KForward" || e.Kind == "KForwardAsync" {
+					s = int64(f.Sys) // caller-chosen system bytes
+				}
 			}
 			t := strings.Fields(fm)
 			t[5] = fmt.Sprint(s)
@@ -431,6 +434,7 @@ type Env struct {
 	dialCh  chan net.Conn     // active: peer ends of dialed pipes
 	dialGo  chan struct{}     // active: tokens allowing a dial to proceed
 	OnAsync func(origin int64, res string)
+	Notif   chan hsms.ConnState // every state-change notification's `next` (supervisor has reacted)
 }
 
 // NewEnv builds (does not open) a connection. nh handlers are registered; each logs "H".
@@ -494,6 +498,13 @@ func NewEnv(active bool, nh int, t3, t6 time.Duration, extra ...hsms.ConnOption)
 		return nil, err
 	}
 	e.Conn = conn
+	e.Notif = make(chan hsms.ConnState, 1<<12)
+	conn.AddConnStateChangeHandler(func(prev, next hsms.ConnState) {
+		select {
+		case e.Notif <- next:
+		default:
+		}
+	})
 	for h := 0; h < nh; h++ {
 		h := h
 		conn.AddDataMessageHandler(func(m *hsms.DataMessage, _ hsms.SECS2Endpoint) {
@@ -603,6 +614,23 @@ func (e *Env) Select(p *Peer, sys uint32) error {
 	return e.WaitState(hsms.SelectedState, 3*time.Second)
 }
 
+// WaitNotified waits until the supervisor has REACTED to entering s (its notification was
+// delivered), i.e. the echo event of the synchronous commit has been processed.
+func (e *Env) WaitNotified(s hsms.ConnState, d time.Duration) error {
+	t := time.NewTimer(d)
+	defer t.Stop()
+	for {
+		select {
+		case n := <-e.Notif:
+			if n == s {
+				return nil
+			}
+		case <-t.C:
+			return fmt.Errorf("rig: no notification of state %v", s)
+		}
+	}
+}
+
 // WaitState polls State() (the same lock-free read the send gate uses).
 func (e *Env) WaitState(s hsms.ConnState, d time.Duration) error {
 	dl := time.Now().Add(d)
@@ -666,4 +694,90 @@ func (e *Env) SyncSend(ctx context.Context, id int64, stream, fn byte, w bool) (
 	}
 	e.Rec.Add(Entry{K: 'R', ID: id, Result: res, N: el.Milliseconds()})
 	return res, el
+}
+
+// ---------------------------------------------------------------------------------------------
+// all data-sending entry points (C07)
+
+type s2msg struct {
+	s, f byte
+	w    bool
+	it   secs2.Item
+}
+
+func (m s2msg) StreamCode() uint8   { return m.s }
+func (m s2msg) FunctionCode() uint8 { return m.f }
+func (m s2msg) WaitBit() bool       { return m.w }
+func (m s2msg) Item() secs2.Item    { return m.it }
+
+// EntryPoints lists the data-sending entry points with the model kind each maps to.
+var EntryPoints = []struct{ Name, Kind string }{
+	{"sync", "KSync"}, {"secs2", "KSync"}, {"syncnw", "KSync"}, {"async", "KAsync"}, {"reply", "KReply"},
+	{"forward", "KForward"}, {"forwardasync", "KForwardAsync"},
+}
+
+// Call performs one data-sending entry point with body token id, logging S and R. The message is
+// S5F1 (W as the entry point dictates); forward/reply carry caller-chosen system bytes.
+func (e *Env) Call(ctx context.Context, ep string, id int64) string {
+	item := secs2.U4(uint32(id))
+	body := U4Body(uint32(id))
+	var f Frame
+	var kind string
+	var do func() (*hsms.DataMessage, error)
+	switch ep {
+	case "sync":
+		kind, f = "KSync", Frame{Sid: e.Sid, B2: 0x80 | 5, B3: 1, Body: body}
+		do = func() (*hsms.DataMessage, error) { return e.Conn.SendDataMessage(ctx, 5, 1, true, item) }
+	case "syncnw":
+		kind, f = "KSync", Frame{Sid: e.Sid, B2: 5, B3: 1, Body: body}
+		do = func() (*hsms.DataMessage, error) { return e.Conn.SendDataMessage(ctx, 5, 1, false, item) }
+	case "secs2":
+		kind, f = "KSync", Frame{Sid: e.Sid, B2: 0x80 | 5, B3: 1, Body: body}
+		do = func() (*hsms.DataMessage, error) { return e.Conn.SendSECS2Message(ctx, s2msg{5, 1, true, item}) }
+	case "async":
+		kind, f = "KAsync", Frame{Sid: e.Sid, B2: 0x80 | 5, B3: 1, Body: body}
+		do = func() (*hsms.DataMessage, error) { return nil, e.Conn.SendDataMessageAsync(ctx, 5, 1, true, item) }
+	case "reply":
+		sys := uint32(0x60000000 + id)
+		kind, f = "KReply", Frame{Sid: e.Sid, B2: 5, B3: 2, Sys: sys, Body: body}
+		prim, err := hsms.NewDataMessage(5, 1, true, e.Sid, hsms.ToSystemBytes(sys), nil)
+		do = func() (*hsms.DataMessage, error) {
+			if err != nil {
+				return nil, err
+			}
+			return nil, e.Conn.ReplyDataMessage(ctx, prim, item)
+		}
+	case "forward", "forwardasync":
+		sys := uint32(0x70000000 + id)
+		kind, f = "KForward", Frame{Sid: e.Sid, B2: 0x80 | 5, B3: 1, Sys: sys, Body: body}
+		msg, err := hsms.NewDataMessage(5, 1, true, e.Sid, hsms.ToSystemBytes(sys), item)
+		if ep == "forward" {
+			do = func() (*hsms.DataMessage, error) {
+				if err != nil {
+					return nil, err
+				}
+				return nil, e.Conn.ForwardDataMessage(ctx, msg)
+			}
+		} else {
+			kind = "KForwardAsync"
+			do = func() (*hsms.DataMessage, error) {
+				if err != nil {
+					return nil, err
+				}
+				return nil, e.Conn.ForwardDataMessageAsync(ctx, msg)
+			}
+		}
+	default:
+		panic("unknown entry point " + ep)
+	}
+	e.Rec.Add(Entry{K: 'S', ID: id, Kind: kind, F: &f})
+	t0 := time.Now()
+	reply, err := do()
+	el := time.Since(t0)
+	res := Classify(reply, err)
+	if reply != nil && err != nil {
+		res = "both"
+	}
+	e.Rec.Add(Entry{K: 'R', ID: id, Result: res, N: el.Milliseconds()})
+	return res
 }
